@@ -142,9 +142,13 @@ def c10(ctx, t0):
     res = []
     if want(ctx, 'progress'):
         res.append(ovl_stage(ctx, 'progress', 'TestVerifC10', T(ctx, 900, 5400)))
+    if want(ctx, 'fd-exhaustion'):
+        ctx.build_agent()
+        res.append(ctx.run_child('fd-exhaustion', [ctx.build_hx(), 'c10fd'], T(ctx, 600, 1800)))
     floors = {'requests_completed': (counters(res, 'requests_completed'), 5000),
               'upgrades_enqueued:local': (counters(res, 'upgrades_enqueued:local'), 50),
-              'local_enqueue_at_full_queue': (counters(res, 'local_enqueue_at_full_queue'), 1)}
+              'local_enqueue_at_full_queue': (counters(res, 'local_enqueue_at_full_queue'), 1),
+              'rounds_with_full_descriptor_table': (counters(res, 'rounds_with_full_descriptor_table'), 2)}
     return finish(ctx, 'exploration', res, COMMON_ASSUME + [
         'liveness is restated as bounded progress: every issued request returns before the drain phase ends and one probe per request channel returns afterwards',
         'a violation is a proved block (dispatcher goroutine blocked at the same place in two dumps), never a timeout; the watchdog firing is inconclusive',
